@@ -11,6 +11,7 @@ import (
 	li "github.com/corazawaf/libinjection-go"
 
 	"verif/harness/core"
+	"verif/harness/gen"
 )
 
 // Baseline is the snapshot of the five shipped tables taken once from the
@@ -35,6 +36,33 @@ func liveTables() Baseline {
 		b.Events[e.Name] = e.Type
 	}
 	return b
+}
+
+// tablesDigest: order-independent digest of everything in the five shared
+// tables plus the hex map, for "unchanged at a later quiescent point" checks.
+func tablesDigest() (uint64, int) {
+	var sum uint64
+	n := 0
+	add := func(k string) {
+		sum += core.Hash64(k) | 1
+		n++
+	}
+	for k, v := range li.VerifSQLKeywords() {
+		add("kw|" + k + "|" + string([]byte{v}))
+	}
+	for i, t := range li.VerifBlackTags() {
+		add(fmt.Sprintf("tag|%d|%s", i, t))
+	}
+	for i, a := range li.VerifBlacks() {
+		add(fmt.Sprintf("attr|%d|%s|%d", i, a.Name, a.Type))
+	}
+	for i, e := range li.VerifBlackEvents() {
+		add(fmt.Sprintf("ev|%d|%s|%d", i, e.Name, e.Type))
+	}
+	for i, h := range li.VerifHexMap() {
+		add(fmt.Sprintf("hex|%d|%d", i, h))
+	}
+	return sum, n
 }
 
 // SnapshotTables writes the live tables as the baseline (construction tool).
@@ -64,7 +92,7 @@ func c20() *core.Check {
 	return &core.Check{
 		ID:         "C20",
 		Exhaustive: true,
-		Rule: "all entries of the five live tables (read through the accessors after package initialisation) are checked against the well-formedness predicates; every entry of baseline/tables.json (snapshot of the pinned tree) must be present with the same classification; every baseline entry is additionally exercised through the real look-up path (IsSQLi sentence per keyword class, per-fingerprint blacklist probe, isBlackTag / isBlackAttr per name). Finite and enumerated completely. " +
+		Rule: "all entries of the five live tables (read through the accessors after package initialisation) are checked against the well-formedness predicates; every entry of baseline/tables.json (snapshot of the pinned tree) must be present with the same classification; every baseline entry is additionally exercised through the real look-up path (isBlackTag / isBlackAttr per name, token class per keyword); the tables are digested again at a second quiescent point after ~30 000 calls over the corpus, every tag, event and keyword, and must be unchanged. Finite and enumerated completely. " +
 			"Non-trivial = every table entry; distinct by table+key.",
 		Plan: func(tier string, seed uint64) []core.Unit { return []core.Unit{{Gen: "tables", Lo: 0, Hi: 1}} },
 		Gen: func(w *core.Worker, u core.Unit, emit func(core.Case)) {
@@ -210,6 +238,71 @@ func c20() *core.Check {
 				if !li.IsXSS("<a on" + strings.ToLower(n) + "=x>") {
 					bad("entry-unreachable", fmt.Sprintf("event %q is listed but <a on%s=x> is not detected", n, strings.ToLower(n)))
 				}
+			}
+			// second quiescent point: after a workload that drives both
+			// detectors over the corpus and seeds the tables must be unchanged
+			d0, n0 := tablesDigest()
+			calls := 0
+			for rep := 0; rep < 2; rep++ {
+				for _, in := range gen.CorpusSQL() {
+					li.IsSQLi(in)
+					li.IsXSS(in)
+					calls += 2
+				}
+				for _, in := range gen.CorpusHTML() {
+					li.IsXSS(in)
+					li.IsSQLi(in)
+					calls += 2
+				}
+				for _, t := range live.Tags {
+					li.IsXSS("<" + strings.ToLower(t) + " x=y>")
+					calls++
+				}
+				for n := range live.Events {
+					li.IsXSS("<a on" + strings.ToLower(n) + "=x>")
+					calls++
+				}
+				for k, v := range live.Keywords {
+					if v != "F" {
+						li.IsSQLi("1 " + strings.ToLower(k) + " 1")
+						calls++
+					}
+				}
+			}
+			d1, n1 := tablesDigest()
+			w.Count("calls_between_quiescent_points", uint64(calls))
+			if d0 != d1 || n0 != n1 {
+				live2 := liveTables()
+				what := "digest differs"
+				for k, v := range live.Keywords {
+					if v2, ok := live2.Keywords[k]; !ok || v2 != v {
+						what = fmt.Sprintf("SQL entry %q was %s and is %q (present=%v) after the workload", k, v, v2, ok)
+						break
+					}
+				}
+				for k := range live2.Keywords {
+					if _, ok := live.Keywords[k]; !ok {
+						what = fmt.Sprintf("SQL entry %q appeared after the workload", k)
+						break
+					}
+				}
+				for i, t := range live2.Tags {
+					if i >= len(live.Tags) || live.Tags[i] != t {
+						what = fmt.Sprintf("black tag list changed at index %d (%q)", i, t)
+						break
+					}
+				}
+				for k, v := range live.Attrs {
+					if live2.Attrs[k] != v {
+						what = fmt.Sprintf("black attribute %q changed type %d -> %d", k, v, live2.Attrs[k])
+					}
+				}
+				for k, v := range live.Events {
+					if v2, ok := live2.Events[k]; !ok || v2 != v {
+						what = fmt.Sprintf("event %q changed (present=%v)", k, ok)
+					}
+				}
+				bad("table-changed-at-runtime", fmt.Sprintf("the shared tables differ between two quiescent points (%d -> %d entries, %d calls in between): %s", n0, n1, calls, what))
 			}
 			w.Count("baseline_keywords", uint64(len(base.Keywords)))
 			w.Count("baseline_tags", uint64(len(base.Tags)))
